@@ -1675,3 +1675,42 @@ Proof.
   - apply row2_C22; assumption.
 Qed.
 
+(** the [level] hypothesis is necessary: at rest on the equator with zero specific force (free fall: f_D = 0, not -g)
+    and a unit PHI2 error the 2D right-hand side does not move at all (derivative 0), while the model predicts the
+    gravity-tilt rate g0(0) = GE_ for DV1 *)
+Definition s_rest : nstate := mkS 0 0 0 0 0 0 1 0 0 0 1 0 0 0 1.
+Definition m_fall : imu := mkI 0 0 0 0 0 0.
+Definition y_phi2 : err7 := mkX7 0 0 0 0 0 1 0.
+
+Lemma errdyn2d_nonlevel_refuted :
+  dom s_rest /\ s_VD s_rest = 0 /\ ~ level s_rest m_fall /\
+  is_derive (lin2 nav_rhs_VN s_VN s_rest m_fall y_phi2) 0 0 /\
+  s_VN (pdelta s_rest (lift s_rest (errdynR s_rest 0 0 0 y_phi2))) = GE_ /\
+  ~ is_derive (lin2 nav_rhs_VN s_VN s_rest m_fall y_phi2) 0
+      (s_VN (pdelta s_rest (lift s_rest (errdynR s_rest 0 0 0 y_phi2)))).
+Proof.
+  assert (Hg : normal_gravity (0 * d2r) 0 = GE_).
+  { unfold normal_gravity. rewrite Rmult_0_l, sin_0, !Rmult_0_r, Rminus_0_r, sqrt_1, Rplus_0_r.
+    unfold A_. field. }
+  assert (Hval : s_VN (pdelta s_rest (lift s_rest (errdynR s_rest 0 0 0 y_phi2))) = GE_).
+  { unfold pdelta, lift, errdynR, errdynR2, errdynR5, errdynR6; cbv beta iota delta [s_lat s_lon s_alt s_VN s_VE s_VD s_C00 s_C01 s_C02 s_C10 s_C11 s_C12 s_C20 s_C21 s_C22 i_w0 i_w1 i_w2 i_f0 i_f1 i_f2 e0 e1 e2 e3 e4 e5 e6 e7 e8 y0 y1 y2 y3 y4 y5 y6]. rewrite modelR2_spec.
+    unfold sm3, negl3, N30, N36, N37, N38, lift, s_rest, y_phi2, corD, corE, grav, pd_v0, cross0; cbv beta iota delta [s_lat s_lon s_alt s_VN s_VE s_VD s_C00 s_C01 s_C02 s_C10 s_C11 s_C12 s_C20 s_C21 s_C22 i_w0 i_w1 i_w2 i_f0 i_f1 i_f2 e0 e1 e2 e3 e4 e5 e6 e7 e8 y0 y1 y2 y3 y4 y5 y6].
+    rewrite Hg. ring. }
+  assert (Hder : is_derive (lin2 nav_rhs_VN s_VN s_rest m_fall y_phi2) 0 0).
+  { assert (E : forall u : R, lin2 nav_rhs_VN s_VN s_rest m_fall y_phi2 u = 0);
+      [|apply is_derive_ext with (f := fun _ : R => 0); [intro u; symmetry; apply E|apply @is_derive_const]].
+    intro u. lazy beta iota delta [lin2 nav_field2 app pdelta lift sadd s_rest m_fall y_phi2 s_lat s_lon s_alt s_VN s_VE s_VD s_C00 s_C01 s_C02 s_C10 s_C11 s_C12 s_C20 s_C21 s_C22 i_w0 i_w1 i_w2 i_f0 i_f1 i_f2 e0 e1 e2 e3 e4 e5 e6 e7 e8 y0 y1 y2 y3 y4 y5 y6].
+    unfold nav_rhs_VN at 1; unfold pd_v0, pd_v1, pd_v2, dot3, cross0, cross1, cross2.
+    ring. }
+  splits.
+  - unfold dom, s_rest; cbv beta iota delta [s_lat s_lon s_alt s_VN s_VE s_VD s_C00 s_C01 s_C02 s_C10 s_C11 s_C12 s_C20 s_C21 s_C22 i_w0 i_w1 i_w2 i_f0 i_f1 i_f2 e0 e1 e2 e3 e4 e5 e6 e7 e8 y0 y1 y2 y3 y4 y5 y6]. lra.
+  - reflexivity.
+  - intros [_ H]. unfold app, s_rest, m_fall, nav_rhs_VD, dot3, cross2 in H; cbv beta iota delta [s_lat s_lon s_alt s_VN s_VE s_VD s_C00 s_C01 s_C02 s_C10 s_C11 s_C12 s_C20 s_C21 s_C22 i_w0 i_w1 i_w2 i_f0 i_f1 i_f2 e0 e1 e2 e3 e4 e5 e6 e7 e8 y0 y1 y2 y3 y4 y5 y6] in H.
+    rewrite Hg in H. unfold GE_ in H. lra.
+  - exact Hder.
+  - exact Hval.
+  - intro H. rewrite Hval in H.
+    pose proof (is_derive_unique _ _ _ Hder) as E0. pose proof (is_derive_unique _ _ _ H) as E1.
+    rewrite E0 in E1. unfold GE_ in E1. lra.
+Qed.
+
